@@ -412,7 +412,8 @@ theorem safe_parseShorthand (o : POracle) (fuel : Nat) : Safe (parseShorthand o 
 /-- tree-sitter's contract for the stanza queries: a query text the parser builds always ends in the full-match
     capture, so an accepted query has a capture of that name -/
 def QueryContract (o : POracle) : Prop :=
-  ∀ q patterns caps, o.query q = some (.valid patterns caps) → (caps.findIdx? (·.1 = fullMatchName)).isSome
+  (∀ q patterns caps, o.query q = some (.valid patterns caps) → (caps.findIdx? (·.1 = fullMatchName)).isSome) ∧
+  (∀ q, o.query q ≠ some .bindingPanic)
 
 theorem safe_parseStanza (o : POracle) (fuel : Nat) (hc : QueryContract o) : Safe (parseStanza o fuel) := by
   unfold parseStanza
@@ -423,12 +424,13 @@ theorem safe_parseStanza (o : POracle) (fuel : Nat) (hc : QueryContract o) : Saf
   | none => exact Safe.need _
   | some ans =>
     cases ans with
+    | bindingPanic => exact absurd hq (hc.2 _)
     | invalid r c off => exact Safe.failE _
     | valid patterns caps =>
       dsimp only
       split
       · exact Safe.failE _
-      · have := hc _ _ _ hq
+      · have := hc.1 _ _ _ hq
         cases hf : caps.findIdx? (·.1 = fullMatchName) with
         | none => simp [hf] at this
         | some ix =>
@@ -458,6 +460,6 @@ theorem safe_parseFile (o : POracle) (fuel : Nat) (hc : QueryContract o) : Safe 
 theorem parse_never_panics (o : POracle) (text : String) (hc : QueryContract o) (site : String) :
     parse o text ≠ .error (.panic site) := by
   unfold parse
-  exact (safe_parseFile _ _ (by intro q p caps h; exact hc q p caps h)).run _ site
+  exact (safe_parseFile { o with fuel := text.length + 2 } _ ⟨fun q p caps h => hc.1 q p caps h, fun q => hc.2 q⟩).run _ site
 
 end Parser
